@@ -14,9 +14,8 @@ Definition indices (k : pyslice) (len : Z) : res (Z * option Z * Z) :=
   do3 (start, stop, step) <- slice_indices k len;
   match s_step k with
   | None => Ok (start, Some stop, step)
-  | Some st => if st >? 0 then Ok (start, Some stop, step)
-               else (* assert s.step < 0 *)
-                 Ok (start, (if stop <? 0 then None else Some stop), step)
+  | Some st => if st >=? 0 then Ok (start, Some stop, step)      (* step = 0 already failed in slice_indices *)
+               else Ok (start, (if stop <? 0 then None else Some stop), step)
   end.
 
 Definition offset_slice_indices_lsb0 (key : pyslice) (len : Z) : res pyslice :=
